@@ -367,4 +367,158 @@ theorem spInv_of_accepted {S : CTy} {w n L : Nat} {v : Int} {log : List Ev} {s :
   obtain ⟨plog, hpl⟩ := protoReach_of_accepted h hp
   exact Bulk.spInv_of_accepted hpl
 
+/-! ### enabled events -/
+
+/-- the event is accepted in `s` -/
+def En (s : St) (e : Ev) : Prop := ∃ s', step s e = some s'
+
+/-- the worker task an event belongs to (`none`: the thread running `set_value` / its spawner
+    loop, and the receiver's completion) -/
+def evActor : Ev → Option Nat
+  | .task k => some k
+  | .load k _ _ _ => some k
+  | .cas k _ _ _ _ => some k
+  | .chunk k _ => some k
+  | .call k _ _ => some k
+  | .ret k => some k
+  | .throw k => some k
+  | .exc k => some k
+  | .dec k _ => some k
+  | .decide k _ => some k
+  | _ => none
+
+/-- the generated per-iteration functions on a queue word of the model -/
+theorem popTry_word (off f l : Nat) (hl : l < 4294967296) (hfl : f ≤ l) :
+    popTry off (f : Int) (l : Int) =
+      if f < l then
+        some (if off = 0 then ((f : Int), ((f : Int) + 1, (l : Int)))
+              else ((l : Int) - 1, ((f : Int), (l : Int) - 1)))
+      else none := by
+  unfold popTry
+  by_cases h0 : off = 0
+  · rw [if_pos h0, IQ.popLeftTry_exact (f : Int) (l : Int) (by omega) (by omega) (by omega) (by omega)]
+    by_cases hlt : f < l
+    · rw [if_pos (by omega), if_pos hlt, if_pos h0]
+    · rw [if_neg (by omega), if_neg hlt]
+  · rw [if_neg h0, IQ.popRightTry_exact (f : Int) (l : Int) (by omega) (by omega) (by omega) (by omega)]
+    by_cases hlt : f < l
+    · rw [if_pos (by omega), if_pos hlt, if_neg h0]
+    · rw [if_neg (by omega), if_neg hlt]
+
+/-- the words of the model's queues are below `2^32` -/
+theorem word_bounds (s : St) (hi : CInv s) (q : Nat) (hq : q < s.w) :
+    (s.p.qs q).1 ≤ (s.p.qs q).2 ∧ (s.p.qs q).2 < 4294967296 := by
+  have hw : s.p.w = s.w := hi.pw
+  have hr := hi.pq.rng q (by omega)
+  have ha := hi.pa (q + 1) (by omega)
+  have hm : part s.w (nchunks s.c s.n) (q + 1) ≤ part s.w (nchunks s.c s.n) s.w :=
+    mono_le (part s.w (nchunks s.c s.n)) s.w (fun k _ => part_mono _ _ k) (q + 1) s.w (by omega) (by omega)
+  rw [part_last _ _ (by omega)] at hm
+  have := hi.safe.2.2.2.2.2.2.2.1
+  omega
+
+/-- `pop_*` observing an empty word returns `nullopt`: accepted by the protocol model -/
+theorem en_popNone (s : St) (hi : CInv s) (k off : Nat) (hk : k < s.w)
+    (hoff : Bulk.offOf (s.p.pc k) = some off)
+    (hn : popTry off ((s.p.qs ((k + off) % s.w)).1 : Int) ((s.p.qs ((k + off) % s.w)).2 : Int) = none) :
+    ∃ s', popNone s k ((k + off) % s.w) = some s' := by
+  have hw : s.p.w = s.w := hi.pw
+  have hqw : (k + off) % s.w < s.w := Nat.mod_lt _ (by omega)
+  obtain ⟨b1, b2⟩ := word_bounds s hi _ hqw
+  rw [popTry_word off _ _ b2 b1] at hn
+  have hq : Bulk.qEmpty (s.p.qs ((k + off) % s.w)) = true := by
+    rw [Bulk.qEmpty_iff]
+    by_cases hlt : (s.p.qs ((k + off) % s.w)).1 < (s.p.qs ((k + off) % s.w)).2
+    · rw [if_pos hlt] at hn; simp at hn
+    · omega
+  obtain ⟨p', hp'⟩ := Bulk.en_popNone s.p k off (by omega) hoff (by rw [hw]; exact hq)
+  rw [hw] at hp'
+  exact ⟨_, by simp only [popNone]; rw [hp']⟩
+
+/-- a worker in the `while` test that holds no word can load the word of its current queue -/
+theorem en_load (s : St) (hi : CInv s) (hph : s.ph = 1) (k off : Nat) (hk : k < s.w)
+    (hoff : Bulk.offOf (s.p.pc k) = some off) (hr : popReady (s.lp k) = true)
+    (hex : s.ex k = none) :
+    En s (.load k ((k + off) % s.w) ((s.p.qs ((k + off) % s.w)).1 : Int)
+      ((s.p.qs ((k + off) % s.w)).2 : Int)) := by
+  have hpo : popOff (s.p.pc k) = some off := by rw [popOff_eq_offOf]; exact hoff
+  unfold En
+  simp only [step]
+  rw [if_pos ⟨hph, hk, hex, hr, rfl⟩, hpo]
+  dsimp only
+  rw [if_pos rfl]
+  cases hpt : popTry off ((s.p.qs ((k + off) % s.w)).1 : Int) ((s.p.qs ((k + off) % s.w)).2 : Int) with
+  | none => exact en_popNone s hi k off hk hoff hpt
+  | some x => exact ⟨_, rfl⟩
+
+/-- a worker whose loaded word is stale: the compare-exchange fails and reloads -/
+theorem en_casFail (s : St) (hi : CInv s) (hph : s.ph = 1) (k off : Nat) (hk : k < s.w)
+    (hoff : Bulk.offOf (s.p.pc k) = some off) (hr : popReady (s.lp k) = true)
+    (x : Int × Int) (hex : s.ex k = some x) (hx : x ≠ word (s.p.qs ((k + off) % s.w)))
+    (hpt : popTry off x.1 x.2 ≠ none) :
+    En s (.cas k ((k + off) % s.w) false ((s.p.qs ((k + off) % s.w)).1 : Int)
+      ((s.p.qs ((k + off) % s.w)).2 : Int)) := by
+  have hpo : popOff (s.p.pc k) = some off := by rw [popOff_eq_offOf]; exact hoff
+  obtain ⟨ef, el⟩ := x
+  unfold En
+  simp only [step]
+  rw [if_pos ⟨hph, hk, hr⟩, hex, hpo]
+  dsimp only
+  rw [if_pos rfl]
+  cases hpx : popTry off ef el with
+  | none => exact absurd hpx hpt
+  | some y =>
+    obtain ⟨idx, df, dl⟩ := y
+    dsimp only
+    rw [if_neg hx, if_pos ⟨trivial, rfl⟩]
+    cases hpt : popTry off ((s.p.qs ((k + off) % s.w)).1 : Int) ((s.p.qs ((k + off) % s.w)).2 : Int) with
+    | none => exact en_popNone s hi k off hk hoff hpt
+    | some x => exact ⟨_, rfl⟩
+
+/-- a worker whose loaded word is still the word of the queue: the compare-exchange succeeds -/
+theorem en_casOk (s : St) (hi : CInv s) (hph : s.ph = 1) (k off : Nat) (hk : k < s.w)
+    (hoff : Bulk.offOf (s.p.pc k) = some off) (hr : popReady (s.lp k) = true)
+    (hex : s.ex k = some (word (s.p.qs ((k + off) % s.w))))
+    (hpt : popTry off ((s.p.qs ((k + off) % s.w)).1 : Int) ((s.p.qs ((k + off) % s.w)).2 : Int) ≠ none) :
+    ∃ df dl, En s (.cas k ((k + off) % s.w) true df dl) := by
+  have hpo : popOff (s.p.pc k) = some off := by rw [popOff_eq_offOf]; exact hoff
+  have hw : s.p.w = s.w := hi.pw
+  have hqw : (k + off) % s.w < s.w := Nat.mod_lt _ (by omega)
+  obtain ⟨b1, b2⟩ := word_bounds s hi _ hqw
+  have hptw := popTry_word off (s.p.qs ((k + off) % s.w)).1 (s.p.qs ((k + off) % s.w)).2 b2 b1
+  have hlt : (s.p.qs ((k + off) % s.w)).1 < (s.p.qs ((k + off) % s.w)).2 := by
+    by_cases h : (s.p.qs ((k + off) % s.w)).1 < (s.p.qs ((k + off) % s.w)).2
+    · exact h
+    · rw [if_neg h] at hptw; exact absurd hptw hpt
+  rw [if_pos hlt] at hptw
+  have hne : Bulk.qEmpty (s.p.qs ((k + off) % s.w)) = false := (Bulk.qEmpty_false_iff _).2 hlt
+  have hps := Bulk.en_popSome s.p k off (by omega) hoff (by rw [hw]; exact hne)
+  rw [hw] at hps
+  by_cases h0 : off = 0
+  · rw [if_pos h0] at hptw
+    simp only [if_pos h0] at hps
+    refine ⟨((s.p.qs ((k + off) % s.w)).1 : Int) + 1, ((s.p.qs ((k + off) % s.w)).2 : Int), ?_⟩
+    unfold En
+    simp only [step]
+    rw [if_pos ⟨hph, hk, hr⟩, hex, hpo]
+    dsimp only [word]
+    rw [if_pos rfl, hptw]
+    dsimp only
+    have hnn : (0 : Int) ≤ ((s.p.qs ((k + off) % s.w)).1 : Int) := by omega
+    simp [hps, hnn, upd_same]
+  · rw [if_neg h0] at hptw
+    simp only [if_neg h0] at hps
+    refine ⟨((s.p.qs ((k + off) % s.w)).1 : Int), ((s.p.qs ((k + off) % s.w)).2 : Int) - 1, ?_⟩
+    have ht : (((s.p.qs ((k + off) % s.w)).2 : Int) - 1).toNat = (s.p.qs ((k + off) % s.w)).2 - 1 := by
+      omega
+    unfold En
+    simp only [step]
+    rw [if_pos ⟨hph, hk, hr⟩, hex, hpo]
+    dsimp only [word]
+    rw [if_pos rfl, hptw]
+    dsimp only
+    have hnn : (0 : Int) ≤ ((s.p.qs ((k + off) % s.w)).2 : Int) - 1 := by omega
+    simp [ht, hps, upd_same]
+    omega
+
 end PikaVerif.BulkC
